@@ -303,11 +303,20 @@ Qed.
 (* ---------------------------------------------------------------------------------------- *)
 (* the structural invariant *)
 
+(* the armed timer is not earlier than the earliest pending activation (it is later by the lag
+   when the last wake-up worked with a tick value older than the clock reading); no pending
+   activation, no timer *)
+Definition tm_ok (tm hd : option Z) : Prop :=
+  match hd with
+  | Some n => exists T, tm = Some T /\ n <= T
+  | None => tm = None
+  end.
+
 Record inv1 (s : state) : Prop := {
   i1_nodup : NoDup (map eid (entries s));
   i1_ids : forall e, In e (entries s) -> eid e <= nextID s;
   i1_sids : forall x, In x (starts s) -> sid x <= nextID s;
-  i1_run : running s = true -> sorted (entries s) /\ timer s = head_nxt (entries s);
+  i1_run : running s = true -> sorted (entries s) /\ tm_ok (timer s) (head_nxt (entries s));
   i1_idle : running s = false -> timer s = None
 }.
 
@@ -321,13 +330,16 @@ Proof.
   - reflexivity.
 Qed.
 
-Lemma arm_ok es t id out cx st :
-  let s' := arm (mkS es t true id None out cx st t) in
-  sorted (entries s') /\ timer s' = head_nxt (entries s').
+Lemma arm_ok es nw id out cx st ck : nw <= ck ->
+  let s' := arm (mkS es nw true id None out cx st ck) in
+  (sorted (entries s') /\ tm_ok (timer s') (head_nxt (entries s'))) /\
+  (ck = nw -> timer s' = head_nxt (entries s')).
 Proof.
-  cbn [arm entries timer now clk]. split; [apply sort_sorted|].
-  destruct (sort_entries es) as [|e l]; [reflexivity|]. cbn [head_nxt].
-  destruct (enxt e); [f_equal; lia|reflexivity].
+  intro Hle. cbn [arm entries timer now clk]. split; [split; [apply sort_sorted|]|].
+  - destruct (sort_entries es) as [|e l]; [reflexivity|]. cbn [head_nxt].
+    destruct (enxt e) as [n|]; cbn [tm_ok]; [|reflexivity]. eexists. split; [reflexivity|lia].
+  - intros ->. destruct (sort_entries es) as [|e l]; [reflexivity|]. cbn [head_nxt].
+    destruct (enxt e); [f_equal; lia|reflexivity].
 Qed.
 
 (* what one enabled step does to the fields the invariants talk about *)
@@ -340,7 +352,7 @@ Inductive step_shape (s s' : state) : event -> Prop :=
 | SWake w : running s = true -> running s' = true ->
     entries s' = sort_entries (map (fire next w) (entries s)) ->
     starts s' = starts s ++ map (srec w) (filter (due_at w) (entries s)) ->
-    nextID s' = nextID s -> clk s' = w ->
+    nextID s' = nextID s -> clk s' = Z.max (clk s) w ->
     outstanding s' = outstanding s + Z.of_nat (length (filter (due_at w) (entries s))) ->
     ctxs s' = ctxs s ->
     step_shape s s' (Wake w)
@@ -380,34 +392,48 @@ Inductive step_shape (s s' : state) : event -> Prop :=
     outstanding s' = outstanding s - 1 ->
     ctxs s' = (if outstanding s - 1 =? 0 then map (fun _ => true) (ctxs s) else ctxs s) ->
     step_shape s s' JobRet
-| STick c : running s' = running s -> timer s' = timer s ->
+| STick ev c : (ev = Tick c \/ ev = Lag c) -> running s' = running s -> timer s' = timer s ->
     entries s' = entries s -> starts s' = starts s -> nextID s' = nextID s -> clk s' = c ->
     outstanding s' = outstanding s -> ctxs s' = ctxs s ->
-    step_shape s s' (Tick c).
+    step_shape s s' ev.
 
-(* in a running state the new state is re-armed: sorted, timer = head *)
+(* in a running state the new state is re-armed: sorted, timer not before the head *)
 Definition rearmed (s' : state) : Prop :=
-  sorted (entries s') /\ timer s' = head_nxt (entries s').
+  sorted (entries s') /\ tm_ok (timer s') (head_nxt (entries s')).
+
+Definition exact (s' : state) : Prop := timer s' = head_nxt (entries s').
+
+Ltac arm_tac :=
+  match goal with
+  | |- rearmed (arm (mkS ?es ?nw true ?id None ?out ?cx ?st ?ck)) /\ _ =>
+      let A := fresh "A" in let B := fresh "B" in
+      destruct (arm_ok es nw id out cx st ck ltac:(lia)) as [A B];
+      split; [exact A|first [exact (B eq_refl)|intro; apply B; lia]]
+  end.
 
 Lemma step_shape_of (s s' : state) ev o : (running s = true -> sorted (entries s)) ->
   step s ev = Some (s', o) ->
   step_shape s s' ev /\
-  (match ev with Start _ | Wake _ | Added _ _ | Removed _ _ => rearmed s' | _ => True end).
+  (match ev with
+   | Start _ | Added _ _ | Removed _ _ => rearmed s' /\ exact s'
+   | Wake w => rearmed s' /\ (clk s <= w -> exact s')
+   | _ => True
+   end).
 Proof.
   intros Hsorted H.
   destruct ev; cbn [Model.step] in H; destruct (running s) eqn:Hr; cbn [negb] in H;
     try discriminate H.
-  - (* Start *) inversion H; subst; clear H. split; [|apply arm_ok].
+  - (* Start *) inversion H; subst; clear H. split; [|arm_tac].
     apply SStart; solve [reflexivity|exact Hr].
   - (* Wake *)
     destruct (timer s) eqn:Htm; [|discriminate H].
     rewrite (wake_loop_sorted w (entries s) (Hsorted eq_refl)) in H.
-    inversion H; subst; clear H. split; [|apply arm_ok].
+    inversion H; subst; clear H. split; [|arm_tac].
     apply SWake; cbn [arm entries starts nextID clk outstanding ctxs running]; try reflexivity; try exact Hr.
     + rewrite map_map. reflexivity.
     + rewrite map_length. reflexivity.
-  - (* Added *) inversion H; subst; clear H. split; [|apply arm_ok]. apply SAdded; solve [reflexivity|exact Hr].
-  - (* Removed *) inversion H; subst; clear H. split; [|apply arm_ok]. apply SRemoved; solve [reflexivity|exact Hr].
+  - (* Added *) inversion H; subst; clear H. split; [|arm_tac]. apply SAdded; solve [reflexivity|exact Hr].
+  - (* Removed *) inversion H; subst; clear H. split; [|arm_tac]. apply SRemoved; solve [reflexivity|exact Hr].
   - (* Snapshot *) inversion H; subst; clear H. split; [|exact I]. apply SSame; auto 10.
   - (* Stop *) inversion H; subst; clear H. split; [|exact I]. apply SStop; solve [reflexivity|exact Hr].
   - (* ScheduleIdle *) inversion H; subst; clear H. split; [|exact I]. apply SSchedIdle; solve [reflexivity|exact Hr].
@@ -425,16 +451,20 @@ Proof.
     cbn [running]. symmetry. exact Hr.
   - (* CtxPoll *) inversion H; subst; clear H. split; [|exact I]. apply SSame; auto 10.
   - inversion H; subst; clear H. split; [|exact I]. apply SSame; auto 10.
-  - (* Tick *) inversion H; subst; clear H. split; [|exact I]. apply STick; try reflexivity.
-    cbn [running]. symmetry. exact Hr.
-  - inversion H; subst; clear H. split; [|exact I]. apply STick; try reflexivity.
-    cbn [running]. symmetry. exact Hr.
+  - (* Tick *) inversion H; subst; clear H. split; [|exact I]. eapply STick; try reflexivity; auto;
+      cbn [running]; symmetry; exact Hr.
+  - inversion H; subst; clear H. split; [|exact I]. eapply STick; try reflexivity; auto;
+      cbn [running]; symmetry; exact Hr.
   - (* RemoveRet *)
     destruct ((id <=? nextID s) && negb (existsb (fun e => eid e =? id) (entries s))); [|discriminate H].
     inversion H; subst; clear H. split; [|exact I]. apply SSame; eauto 10.
   - destruct ((id <=? nextID s) && negb (existsb (fun e => eid e =? id) (entries s))); [|discriminate H].
     inversion H; subst; clear H. split; [|exact I]. apply SSame; eauto 10.
   - (* StopRet *) inversion H; subst; clear H. split; [|exact I]. apply SSame; auto 10.
+  - (* Lag *) inversion H; subst; clear H. split; [|exact I]. eapply STick; try reflexivity; auto;
+      cbn [running]; symmetry; exact Hr.
+  - inversion H; subst; clear H. split; [|exact I]. eapply STick; try reflexivity; auto;
+      cbn [running]; symmetry; exact Hr.
 Qed.
 
 Lemma restart_eid t (e : entry) : eid (restart next t e) = eid e.
@@ -463,12 +493,12 @@ Proof.
                   |id Hr Hr' Ht He Hst Hid Hc Ho Hcx
                   |Hr Hr' Ht He Hst Hid Hc Ho Hcx
                   |Hpos Hr' Ht He Hst Hid Hc Ho Hcx
-                  |c Hr' Ht He Hst Hid Hc Ho Hcx].
+                  |ev c Hev Hr' Ht He Hst Hid Hc Ho Hcx].
   - (* Start *) constructor; rewrite ?He, ?Hst, ?Hid.
     + apply nodup_sort. rewrite map_eid_restart. exact Hnd.
     + intros e Hin. apply -> sort_in in Hin. apply in_map_iff in Hin as [e0 [<- Hin]]. exact (Hids e0 Hin).
     + exact Hsids.
-    + intros _. rewrite <- He. exact Hre.
+    + intros _. rewrite <- He. exact (proj1 Hre).
     + rewrite Hr'. discriminate.
   - (* Wake *) constructor; rewrite ?He, ?Hst, ?Hid.
     + apply nodup_sort. rewrite map_eid_fire. exact Hnd.
@@ -477,7 +507,7 @@ Proof.
     + intros x Hx. apply in_app_or in Hx as [Hx|Hx]; [apply Hsids; exact Hx|].
       apply in_map_iff in Hx as [e [<- He0]]. apply filter_In in He0 as [He0 _].
       cbn. apply Hids; exact He0.
-    + intros _. rewrite <- He. exact Hre.
+    + intros _. rewrite <- He. exact (proj1 Hre).
     + rewrite Hr'. discriminate.
   - (* Added *) constructor; rewrite ?He, ?Hst, ?Hid.
     + apply nodup_sort. rewrite map_app. cbn [map eid].
@@ -488,13 +518,13 @@ Proof.
       * specialize (Hids e Hin). lia.
       * cbn [eid]. lia.
     + intros x Hx. specialize (Hsids x Hx). lia.
-    + intros _. rewrite <- He. exact Hre.
+    + intros _. rewrite <- He. exact (proj1 Hre).
     + rewrite Hr'. discriminate.
   - (* Removed *) constructor; rewrite ?He, ?Hst, ?Hid.
     + apply nodup_sort. unfold remove_entry. apply NoDup_map_filter. exact Hnd.
     + intros e Hin. apply -> sort_in in Hin. apply filter_In in Hin as [Hin _]. apply Hids; exact Hin.
     + exact Hsids.
-    + intros _. rewrite <- He. exact Hre.
+    + intros _. rewrite <- He. exact (proj1 Hre).
     + rewrite Hr'. discriminate.
   - constructor; assumption.
   - (* Stop *) constructor; rewrite ?He, ?Hst, ?Hid; try assumption.
@@ -536,6 +566,20 @@ Proof. apply inv1_run. apply inv1_init. Qed.
 Lemma shape (s s' : state) ev o : inv1 s -> step s ev = Some (s', o) -> step_shape s s' ev.
 Proof.
   intros Hi Hs. eapply step_shape_of; [|exact Hs]. intro Hr. apply (i1_run _ Hi Hr).
+Qed.
+
+(* after Start / Added / Removed, and after a wake-up whose tick value is not older than the clock
+   reading, the armed timer is EXACTLY the earliest pending activation *)
+Lemma exact_step (s s' : state) ev o : inv1 s -> step s ev = Some (s', o) ->
+  match ev with
+  | Start _ | Added _ _ | Removed _ _ => exact s'
+  | Wake w => clk s <= w -> exact s'
+  | _ => True
+  end.
+Proof.
+  intros Hi Hs.
+  destruct (step_shape_of s s' ev o (fun Hr => proj1 (i1_run _ Hi Hr)) Hs) as [_ H].
+  destruct ev; try exact I; apply H.
 Qed.
 
 End Base.
